@@ -81,6 +81,12 @@ DeformLaws ==
   /\ \A t \in 1..GSize(cfg.cvs) : Defined(cfg.cvs, cfg.schemes, q.pts[t])
   /\ \A t \in 1..GSize(cfg.cvs) : RefinesPerAxis(cfg.f, cfg.cvs, cfg.schemes, q.pts[t])
   /\ (cfg.dname = "zero" => q.ans = cfg.f)                      \* zero displacement leaves the template unchanged
+  \* linear interpolation of an affine template is exact wherever the displaced point stays inside the hull
+  /\ ((cfg.fname = "affine" /\ AllLinear(cfg.schemes)) =>
+        \A t \in 1..GSize(cfg.cvs) : InHull(cfg.cvs, q.pts[t]) => q.ans[t] = EvalPoly(cfg.poly, q.pts[t]))
+  \* a shift by exactly one cell makes nearest-neighbour interpolation return the neighbouring node value (edge node at the edge)
+  /\ ((cfg.dname \in {"minus", "plus"} /\ AllNearest(cfg.schemes)) =>
+        \A t \in 1..GSize(cfg.cvs) : \E u \in 1..GSize(cfg.cvs) : q.ans[t] = cfg.f[u])
 QueryLaws ==
   ph = "query" =>
     CASE q.kind = "sample"   -> SampleLaws
